@@ -1,10 +1,148 @@
 import PhysisModel.Base.Proto
+import PhysisModel.Model.Cmp
+import PhysisModel.Spec.Cmp
+import PhysisModel.Model.Tera
+import PhysisModel.Spec.Tera
+import PhysisModel.Model.Layer
+import PhysisModel.Spec.Layer
 namespace Physis.Driver.C16
 open Physis Physis.Proto
 
+/-! ### field parsing (malformed ⇒ `none` ⇒ `bad-case`) -/
+
+def items (sep : String) (s : String) : List String := if s == "-" then [] else s.splitOn sep
+
+def u32? (s : String) : Option UInt32 := do
+  let n ← s.toNat?
+  if n < 2 ^ 32 then some (UInt32.ofNat n) else none
+
+def u16? (s : String) : Option UInt16 := do
+  let n ← s.toNat?
+  if n < 2 ^ 16 then some (UInt16.ofNat n) else none
+
+def u32List? (s : String) : Option (List UInt32) := (items "," s).mapM u32?
+
+def pair? {α} (f : String → Option α) (s : String) : Option (α × α) :=
+  match s.splitOn ":" with
+  | [a, b] => do some (← f a, ← f b)
+  | _ => none
+
+def join (sep : String) (l : List String) : String := if l.isEmpty then "-" else sep.intercalate l
+
+def showOutcome {α} (f : α → String) : Outcome α → String
+  | .ok v => "some " ++ f v
+  | .none => "none"
+  | .panic => "panic"
+  | .unmodelled => "unmodelled"
+
+/-! ### cmp -/
+
+def cycleTo (pat : Bytes) (n : Nat) : Bytes :=
+  if pat.isEmpty then List.replicate n 0 else
+  let reps := n / pat.length + 1
+  ((List.replicate reps pat).flatten).take n
+
+def showRows (rows : List (List UInt32)) : String :=
+  join ";" (rows.map fun r => join "," (r.map fun w => toString w.toNat))
+
+def cmpCase (pat rows tail : String) : Option String := do
+  let pat ← Bytes.ofHexFast pat
+  let rows ← (items ";" rows).mapM u32List?
+  let tail ← Bytes.ofHexFast tail
+  let f : Spec.Cmp.File := ⟨cycleTo pat Spec.Cmp.headerSize, rows, tail⟩
+  if !(decide (Spec.Cmp.WF f)) then none
+  let file := Spec.Cmp.encode f
+  pure (answer ("cmp " ++ Bytes.toHex file) ("some " ++ showRows f.rows) []
+    (some (showOutcome showRows (Cmp.fromExisting file))))
+
+/-! ### tera -/
+
+def showPlate (x y : UInt32) (name : Bytes) : String :=
+  toString x.toNat ++ ":" ++ toString y.toNat ++ ":" ++ Bytes.toHex name
+
+def showSpecPlates (l : List Spec.Tera.Plate) : String := join "," (l.map fun p => showPlate p.x p.y p.filename)
+def showModelPlates (l : List Tera.PlateModel) : String := join "," (l.map fun p => showPlate p.x p.y p.filename)
+def showOpt {α} (f : α → String) : Option α → String
+  | some v => "some " ++ f v
+  | none => "none"
+
+def teraParse (version ps clip unk positions : String) : Option String := do
+  let f : Spec.Tera.File := ⟨← u32? version, ← u32? ps, ← u32? clip, ← u32? unk, ← (items "," positions).mapM (pair? u16?)⟩
+  let file := Spec.Tera.encode f
+  -- the specification only speaks about exactly representable plate centres
+  let exp ← Spec.Tera.plates f
+  pure (answer ("tera_parse " ++ Bytes.toHex file) ("some " ++ showSpecPlates exp) []
+    (some (showOpt showModelPlates (Tera.fromExisting file))))
+
+/-- write → read of a terrain on the 128-unit grid -/
+def teraRoundtrip (positions : String) : Option String := do
+  let ps ← (items "," positions).mapM (pair? u16?)
+  let plates := Spec.Tera.gridPlates ps
+  let input := join "," (plates.map fun p => toString p.x.toNat ++ ":" ++ toString p.y.toNat)
+  let m := Tera.fromExisting (Tera.writeToBuffer (plates.map fun p => ⟨p.x, p.y, p.filename⟩))
+  pure (answer ("tera_rt " ++ input) ("some " ++ showSpecPlates plates) [] (some (showOpt showModelPlates m)))
+
+/-- the writer alone on a grid terrain: the documented layout -/
+def teraWriteGrid (positions : String) : Option String := do
+  let ps ← (items "," positions).mapM (pair? u16?)
+  let plates := Spec.Tera.gridPlates ps
+  let input := join "," (plates.map fun p => toString p.x.toNat ++ ":" ++ toString p.y.toNat)
+  let exp := Spec.Tera.encode ⟨0x1000003, 128, 0, 0x3F800000, ps⟩
+  let m := Tera.writeToBuffer (plates.map fun p => ⟨p.x, p.y, p.filename⟩)
+  pure (answer ("tera_write " ++ input) (Bytes.toHex exp) [] (some (Bytes.toHex m)))
+
+/-- conformance of the float model only (arbitrary f32 bit patterns; the property does not say what
+the writer does off the grid): expected = model, tagged `triv` -/
+def teraWriteAny (positions : String) : Option String := do
+  let ps ← (items "," positions).mapM (pair? u32?)
+  let m := Tera.writeToBuffer (ps.map fun p => ⟨p.1, p.2, []⟩)
+  pure (answer "=" (Bytes.toHex m) ["triv", "float-model"] (some (Bytes.toHex m)))
+
+/-! ### empty layer groups -/
+
+def showGroupS (g : Spec.Layer.EmptyGroup) : String :=
+  s!"{g.fileId.toNat} {g.chunkId.toNat} {g.layerGroupId.toNat} {Bytes.toHex g.name}"
+def showGroupM (g : Layer.Group) : String :=
+  s!"{g.fileId.toNat} {g.chunkId.toNat} {g.layerGroupId.toNat} {Bytes.toHex g.name}"
+
+def layerGroup? (a b c name : String) : Option Spec.Layer.EmptyGroup := do
+  let g : Spec.Layer.EmptyGroup := ⟨← u32? a, ← u32? b, ← u32? c, ← Bytes.ofHexFast name⟩
+  if decide (Spec.Layer.WF g) then some g else none
+
+def bindOutcome {α β} (o : Outcome α) (f : α → Outcome β) : Outcome β :=
+  match o with
+  | .ok v => f v
+  | .none => .none
+  | .panic => .panic
+  | .unmodelled => .unmodelled
+
+def layerCase (op a b c name : String) : Option String := do
+  let g ← layerGroup? a b c name
+  let gm : Layer.Group := ⟨g.fileId, g.chunkId, g.layerGroupId, g.name⟩
+  match op with
+  | "layer_parse" =>
+    let file := Spec.Layer.encode g
+    pure (answer ("layer_parse " ++ Bytes.toHex file) ("some " ++ showGroupS g) []
+      (some (showOutcome showGroupM (Layer.fromExisting file))))
+  | "layer_write" =>
+    pure (answer "=" ("some " ++ Bytes.toHex (Spec.Layer.encode g)) []
+      (some (showOutcome Bytes.toHex (Layer.writeToBuffer gm))))
+  | "layer_rt" =>
+    pure (answer "=" ("some " ++ showGroupS g) []
+      (some (showOutcome showGroupM (bindOutcome (Layer.writeToBuffer gm) Layer.fromExisting))))
+  | _ => none
+
 /-- one case line in, one answer line out (see `Base/Proto.lean`) -/
 def handle (line : String) : String :=
-  match fields line with
-  | _ => bad
+  let r : Option String :=
+    match fields line with
+    | ["cmp", pat, rows, tail] => cmpCase pat rows tail
+    | ["tera_parse", v, ps, clip, unk, positions] => teraParse v ps clip unk positions
+    | ["tera_rt", positions] => teraRoundtrip positions
+    | ["tera_write", positions] => teraWriteGrid positions
+    | ["tera_wany", positions] => teraWriteAny positions
+    | [op, a, b, c, name] => layerCase op a b c name
+    | _ => none
+  r.getD bad
 
 end Physis.Driver.C16
